@@ -57,11 +57,21 @@ MeaningEq(a, b) ==
 
 RewriteWhy(e) == IF ~MeaningEq(e.a, e.b) THEN "certificate" ELSE IF e.ta # e.tb THEN "invariance" ELSE ""
 
+\* "dup" events: values with repeated keys (outside I-JSON, so no canonical text is prescribed); the laws of C10 relate
+\* the outputs: a rewriting that preserves meaning gives the same bytes, a second application changes nothing, the
+\* object stays queryable
+DupWhy(e) == IF e.panic THEN "panic"
+             ELSE IF ~MeaningEq(e.a, e.b) THEN "certificate"
+             ELSE IF e.ta # e.tb THEN "invariance"
+             ELSE IF e.again # e.ta THEN "idempotence"
+             ELSE IF ~e.queries_ok THEN "queries"
+             ELSE ""
+
 TrInit == l = 1 /\ bad = <<>>
 TrNext == /\ l <= Len(Rec)
           /\ l' = l + 1
           /\ LET e == Rec[l]
-                 why == IF e.ev = "canon" THEN CanonWhy(e) ELSE RewriteWhy(e)
+                 why == IF e.ev = "canon" THEN CanonWhy(e) ELSE IF e.ev = "dup" THEN DupWhy(e) ELSE RewriteWhy(e)
              IN bad' = IF why = "" THEN bad ELSE Append(bad, <<l, why>>)
 TrSpec == TrInit /\ [][TrNext]_vars
 Done == l = Len(Rec) + 1
